@@ -313,11 +313,11 @@ def rule_u(F):
 
 
 INDEX_OK = {
-    # (function, ordinal) -> why a panicking index is in range there
-    ("read_str", 0): "bytecode/data slice at an operand the compiler wrote (C10.S: complete length-prefixed strings)",
-    ("decode_value", 0): "bytecode slice at an operand the compiler wrote (C10.W: operand widths agree)",
-    ("instr_set_var", 0): "global_vars was resized to id + 1 on the line before",
-    ("register_upvalue", 0): "index into the enclosing closure's upvalues, an operand the compiler took from add_upvalue (C10.U / C06.W)",
+    # (function, kind of indexing) -> why a panicking index is in range there
+    ("read_str", "slice::index"): "bytecode/data slice at an operand the compiler wrote (C10.S: complete length-prefixed strings)",
+    ("decode_value", "slice::index"): "bytecode slice at an operand the compiler wrote (C10.W: operand widths agree)",
+    ("instr_set_var", "Vec::index_mut"): "global_vars was resized to id + 1 on the line before",
+    ("register_upvalue", "Vec::index"): "index into the enclosing closure's upvalues, an operand the compiler took from add_upvalue (C10.U / C06.W)",
 }
 
 
@@ -335,18 +335,21 @@ def rule_i(F):
         if not (root.startswith("vm::instr_execution::") or root == "vm::Vm::_run"):
             continue
         fname = root.rsplit("::", 1)[-1]
-        k = 0
         sites = []
         for bi, b in enumerate(f.blocks):
             t = b["term"]
             if t["k"] == "assert" and t["msg"] == "BoundsCheck":
-                sites.append((t.get("ln") or 0, "array/slice index", t))
+                sites.append((t.get("ln") or 0, "element[..]", t))
             elif t["k"] == "call" and any(x.endswith("ops::Index::index") or x.endswith("ops::IndexMut::index_mut") for x in callee_names(t["func"])):
-                sites.append((t.get("ln") or 0, callee_names(t["func"])[-1], t))
+                nm = callee_names(t["func"])
+                cont = "Vec" if any("std::vec::Vec" in x for x in nm) else ("slice" if any("slice::index" in x for x in nm) else "other")
+                sites.append((t.get("ln") or 0, "%s::%s" % (cont, "index_mut" if any(x.endswith("index_mut") for x in nm) else "index"), t))
+        cnt = {}
         for ln, what, t in sorted(sites, key=lambda x: x[0]):
-            key = "C04/I/%s/panicking-index%s" % (fname, "" if k == 0 else "#%d" % k)
-            why = INDEX_OK.get((fname, k))
-            k += 1
+            k = cnt.get(what, 0)
+            cnt[what] = k + 1
+            key = "C04/I/%s/%s%s" % (fname, what, "" if k == 0 else "#%d" % k)
+            why = INDEX_OK.get((fname, what)) if k == 0 else None
             n += 1
             if why:
                 res.append(ok("C04.I", key, f.loc(ln), "in range: " + why))
